@@ -40,3 +40,19 @@ Theorem C05_delivery_log_only_grows :
     exists d, deliveries D (ref_run D analyses modpath H fuel p s) = (dels (eng s) ++ d)%list.
 Proof. exact reference_log_grows. Qed.
 Print Assumptions C05_delivery_log_only_grows.
+
+(* every covered call that returns is bracketed: operands, announcement, pre_call with the callee and the arguments as
+   evaluated, everything the callee reports, post_call with the returned value -- in this order, nothing in between *)
+Theorem C05_covered_call_brackets :
+  forall (D : data) (analyses : list (analysis (Sem.earg (d_val D)))) (modpath : string)
+         (H : list string) (funs : list fundef) (fuel : nat) c n f args (s s' : state D) v,
+    forallb (fun fd => src_ss (f_body fd)) funs = true -> src_e f = true -> src_es args = true ->
+    (Base.Util.mem_str "pre_call" H || Base.Util.mem_str "post_call" H) = true ->
+    ref_eval D analyses modpath H funs fuel c (ECall n f args) s = (Ok v, s') ->
+    exists fv vs rv d_ops d_ann d_pre d_callee d_post,
+      dels (eng s') = (dels (eng s) ++ d_ops ++ d_ann ++ d_pre ++ d_callee ++ d_post)%list
+      /\ Forall (fun d => d_hook d = "runtime_event" \/ d_hook d = "control_flow_event") d_ann
+      /\ Forall (fun d => d_hook d = "pre_call" /\ d_args d = [AS modpath; AI (BinInt.Z.of_nat n); AV fv; AL (map AV vs); AD]) d_pre
+      /\ Forall (fun d => d_hook d = "post_call" /\ d_args d = [AS modpath; AI (BinInt.Z.of_nat n); AV rv; AV fv; AT (map AV vs); AD]) d_post.
+Proof. exact covered_call_brackets. Qed.
+Print Assumptions C05_covered_call_brackets.
